@@ -30,5 +30,6 @@ BlockRoundTrip == LET h == [version |-> <<1, 0, 0, 0>>, prev |-> Rep(3, 32), mer
                       t1 == ParseTxAt(b, 82) IN
                   /\ SubSeq(b, 1, 80) = SerHeader(h) /\ b[81] = 2
                   /\ t1.ok /\ t1.tx = tx /\ ParseTxAt(b, t1.p).tx = Strip(tx) /\ ParseTxAt(b, t1.p).p = Len(b) + 1
+WeightRule == Weight(tx) = 4 * StrippedSize(tx) + (Size(tx) - StrippedSize(tx)) /\ (HasWitness(tx) <=> Size(tx) > StrippedSize(tx))
 TargetGenesis == Target(<<255, 255, 0, 29>>) = Rep(0, 4) \o <<255, 255>> \o Rep(0, 26)
 =============================================================================
